@@ -16,6 +16,8 @@ import (
 	"github.com/hashicorp/nodeenrollment"
 	nodenet "github.com/hashicorp/nodeenrollment/net"
 	"github.com/hashicorp/nodeenrollment/protocol"
+	nodetls "github.com/hashicorp/nodeenrollment/tls"
+	"github.com/hashicorp/nodeenrollment/types"
 	"pgregory.net/rapid"
 	"verifharness/vkit"
 )
@@ -43,8 +45,11 @@ type clientSpec struct {
 	Kind   string   `json:"kind"`
 	Extras []string `json:"offered_protocols"`
 	State  bool     `json:"dials_with_client_state,omitempty"`
-	Want   string   `json:"model_delivery"` // listener name set joined by "|" or "closed"
-	Got    string   `json:"got"`
+	// Appended: the node builds its tls.Config with ClientConfigs and appends its
+	// protocol names to it, i.e. AFTER the library's certificate-preference entry
+	Appended bool   `json:"names_appended_after_the_librarys_entries,omitempty"`
+	Want     string `json:"model_delivery"` // listener name set joined by "|" or "closed"
+	Got      string `json:"got"`
 }
 
 func TestProp_Routing(t *testing.T) {
@@ -210,6 +215,7 @@ func TestProp_Routing(t *testing.T) {
 			cs := &clientSpec{ID: i}
 			cs.Kind = rapid.SampledFrom([]string{"authenticated", "authenticated", "base-tls", "base-tls", "fetch-only", "failing"}).Draw(t, "kind")
 			cs.State = cs.Kind == "authenticated" && rapid.Bool().Draw(t, "dialsWithState")
+			cs.Appended = cs.Kind == "authenticated" && rapid.IntRange(0, 3).Draw(t, "namesAppendedToConfig") == 0
 			kinds[cs.Kind] = true
 			k := rapid.IntRange(0, 3).Draw(t, "nProtos")
 			for j := 0; j < k; j++ {
@@ -276,6 +282,32 @@ func TestProp_Routing(t *testing.T) {
 					do := []nodeenrollment.Option{nodeenrollment.WithExtraAlpnProtos(cs.Extras)}
 					if cs.State {
 						do = append(do, nodeenrollment.WithState(vkit.UniqueStruct(fmt.Sprintf("client-%d", cs.ID))))
+					}
+					if cs.Appended {
+						creds, lerr := types.LoadNodeCredentials(w.Ctx, node.Store, nodeenrollment.CurrentId)
+						if lerr != nil {
+							cs.Got = "dial-error: " + lerr.Error()
+							return
+						}
+						cfgs, cerr := nodetls.ClientConfigs(w.Ctx, creds, do[1:]...)
+						if cerr != nil || len(cfgs) == 0 {
+							cs.Got = fmt.Sprintf("dial-error: ClientConfigs: %v", cerr)
+							return
+						}
+						cfgs[0].NextProtos = append(cfgs[0].NextProtos, cs.Extras...)
+						raw, derr := net.Dial("tcp", rig.Addr)
+						if derr != nil {
+							cs.Got = "dial-error: " + derr.Error()
+							return
+						}
+						tc := tls.Client(raw, cfgs[0])
+						if herr := tc.Handshake(); herr != nil {
+							_ = raw.Close()
+							cs.Got = "dial-error: " + herr.Error()
+							return
+						}
+						conn = tc
+						break
 					}
 					c, err := rig.Dial(node, do...)
 					if err != nil {
